@@ -305,16 +305,16 @@ func c17World(c *explore.Ctx, nNodes int, subs []c17Sub, unsubFirst bool, pubs [
 
 func runC17(c *explore.Ctx) {
 	c.Level = "model_checking"
-	c.Rule = "E2: 2 (quick) / 3 (thorough) real in-process brokers, each with the real federation plugin code attached in-package (serf replaced by direct join calls, gRPC by a reliable in-memory transport), one subscriber and one publisher client per node. Every distribution of <=2 (thorough 3) subscriptions from {a, a/#, +, $share/g/a, $share/h/a, $SYS/a} over the nodes (optionally followed by an UNSUBSCRIBE), propagation settled, then the whole publish battery (every origin node x topic {a, a/b, $SYS/a} x {plain, retained, retained-empty}); per publish: forwarded to exactly the nodes with a matching subscription (retained: all peers), once, never back; every matching non-shared subscriber gets it once; each share group gets exactly one copy federation-wide; retained stores of all nodes equal."
+	c.Rule = "E2: 3 real in-process brokers, each with the real federation plugin code attached in-package (serf replaced by direct join calls, gRPC by a reliable in-memory transport), one subscriber and one publisher client per node. Every distribution of <=3 (thorough 4) subscriptions from {a, a/#, +, $share/g/a, $share/h/a, $SYS/a} over the nodes (optionally followed by an UNSUBSCRIBE), propagation settled, then the whole publish battery (every origin node x topic {a, a/b, $SYS/a} x {plain, retained, retained-empty}); per publish: forwarded to exactly the nodes with a matching subscription (retained: all peers), once, never back; every matching non-shared subscriber gets it once; each share group gets exactly one copy federation-wide; retained stores of all nodes equal."
 	c.Trusted = []string{"fake serf/gRPC (reliable here); vsched default schedule", "refmqtt"}
 	if rc := replayCase(c); rc != nil {
 		c.Fatal("C17 replay: re-run ./run.sh C17 quick (%v)", rc)
 		return
 	}
-	nNodes := 2
-	maxSubs := 2
+	nNodes := 3
+	maxSubs := 3
 	if !c.Quick() {
-		nNodes, maxSubs = 3, 3
+		maxSubs = 4
 	}
 	var cands []c17Sub
 	for n := 0; n < nNodes; n++ {
@@ -332,21 +332,21 @@ func runC17(c *explore.Ctx) {
 		pubs = append(pubs, c17Pub{n, "a", 1}, c17Pub{n, "a", 0}, c17Pub{(n + 1) % nNodes, "a", 2})
 	}
 	var dists [][]c17Sub
-	dists = append(dists, nil)
-	for i := range cands {
-		dists = append(dists, []c17Sub{cands[i]})
-		for j := i + 1; j < len(cands); j++ {
-			dists = append(dists, []c17Sub{cands[i], cands[j]})
-			if maxSubs >= 3 {
-				for k := j + 1; k < len(cands); k++ {
-					if cands[k].filter == "$SYS/a" || cands[j].filter == "$SYS/a" {
-						continue
-					}
-					dists = append(dists, []c17Sub{cands[i], cands[j], cands[k]})
-				}
+	var rec func(start int, cur []c17Sub)
+	rec = func(start int, cur []c17Sub) {
+		dists = append(dists, append([]c17Sub{}, cur...))
+		if len(cur) == maxSubs {
+			return
+		}
+		for i := start; i < len(cands); i++ {
+			// keep the larger tables to the filters that interact ($SYS/a only in tables of <=2)
+			if len(cur) >= 2 && (cands[i].filter == "$SYS/a" || cur[1].filter == "$SYS/a" || cur[0].filter == "$SYS/a") {
+				continue
 			}
+			rec(i+1, append(cur, cands[i]))
 		}
 	}
+	rec(0, nil)
 	c.Extra["nodes"] = nNodes
 	c.Extra["subscription_distributions"] = len(dists)
 	c.Extra["publishes_per_distribution"] = len(pubs)
